@@ -93,7 +93,7 @@ class Ctor(Stream):
             regtype = rng.choice([1, 1, 2, 3, 4])
             sc = rng.bytes(rng.choice([2, 2, 4, 8]))
             cap = rng.choice([None, bytes([7]), rng.bytes(rng.range(1, 13))])
-            cont = rng.choice([None, rng.bytes(rng.range(0, 40))])
+            cont = rng.choice([None, rng.bytes(rng.range(1, 40))])     # a NAS message container holds a message: never empty
             a = {"name": "GetRegistrationRequest", "regtype": regtype, "mobid": mid.hex(), "seccap": sc.hex(), "seccap_iei": 0x2E}
             opt = [fv(0x2E, len(sc), sc)]
             if cap is not None:
